@@ -104,6 +104,124 @@ def run(ctx, rep):
         check_trim(crate, rep, cfg)
         check_text(crate, rep, cfg)
         check_raw_token(crate, rep, cfg)
+        check_raw_flags(crate, rep, cfg)
+
+
+def skip_tag_fields(crate):
+    """summary of skip_tag's returned tuple: {field index: 'after'|'before'|'other'} — a bool field is 'after' when the named flag it copies
+    is set to true only after the tag NAME has been stripped (the `-` next to the closing delimiter), 'before' when only before it."""
+    b = crate.one("parsing::lexer::skip_tag")
+    tr = Tracer(b)
+    names = [bb for bb, t in b.calls() if callee_def(t).endswith("<impl str>::strip_prefix") and len(t["args"]) > 1 and
+             (lambda ls: bool(ls) and all(l.kind == "param" and l.detail == 2 for l in ls))(tr.operand(t["args"][1]))]
+    if len(names) != 1:
+        raise AnchorMissing("skip_tag: strip_prefix(name)")
+    nb = names[0]
+    after_name = b.reach_from(nb)
+    ef = EdgeFacts(b, crate)
+    out = {}
+    tuples = [(bb, idx, st) for bb, idx, st in b.stmts() if idx != "t" and st.get("k") == "assign" and st["rv"]["k"] == "agg" and st["rv"].get("ak") == "tuple"]
+    if len(tuples) != 1:
+        raise AnchorMissing("skip_tag: returned tuple")
+    for k, op in enumerate(tuples[0][2]["rv"]["ops"]):
+        cls = "other"
+        loc = None
+        cur = op
+        for _ in range(4):
+            if cur["k"] in ("copy", "move") and not cur["pl"]["p"]:
+                l = cur["pl"]["l"]
+                if b.local_name(l):
+                    loc = l
+                    break
+                d = ef.single_def(l)
+                if d is None or d[3]["k"] != "use":
+                    break
+                cur = d[3]["op"]
+            else:
+                break
+        if loc is not None and b.local_ty(loc) == "bool":
+            sets = [bb for bb, idx, st in b.stmts() if idx != "t" and st.get("k") == "assign" and not st["pl"]["p"] and st["pl"]["l"] == loc and
+                    not (st["rv"]["k"] == "use" and st["rv"]["op"]["k"] == "const" and str(st["rv"]["op"].get("v")) == "0")]
+            if sets and all(x in after_name and x != nb for x in sets):
+                cls = "after"
+            elif sets and all(nb in b.reach_from(x) and x not in after_name for x in sets):
+                cls = "before"
+        out[k] = cls
+    return out, b
+
+
+def gate_of(body, bb):
+    """closest dominating switch one of whose edges leads to bb and another does not"""
+    best = None
+    for sb in sorted(body.reachable):
+        t = body.term(sb)
+        if t["k"] != "switch" or sb == bb or not body.dominates(sb, bb):
+            continue
+        succ = set(body.succ[sb])
+        to = {x for x in succ if body.dominates(x, bb)}
+        if len(to) == 1 and succ - to:
+            if best is None or body.dominates(best, sb):
+                best = sb
+    return best
+
+
+def check_raw_flags(crate, rep, cfg):
+    """C08.RAW — whitespace control of a raw block: `{% raw -%}` trims the start of the body, `{%- endraw %}` trims its end, and `-%}` after
+    endraw is the token's own trailing flag (trims the text that follows). Each of the three decisions must read the dash at ITS position:
+    the two trailing ones are the flag skip_tag sets after the tag name; the end-of-body one is not that flag."""
+    from props.c02 import const_of
+    fields, st_body = skip_tag_fields(crate)
+    b = crate.one("parsing::lexer::basic_tokenize::{closure#0}")
+    rep.analysed(b, st_body)
+    tr = Tracer(b)
+    after = [k for k, c in fields.items() if c == "after"]
+    ok0 = len(after) == 1
+    rep.add("C08.RAW", "C08.RAW:skip_tag:one-trailing-dash-flag", ok0, st_body.where(0), "skip_tag returns exactly one flag that is set only after the tag name was matched (fields: %s)" % fields
+            + ("" if ok0 else " — VIOLATED"))
+    if not ok0:
+        return
+    io = after[0]
+
+    def tag_call(name):
+        r = [bb for bb, t in b.calls() if callee_def(t).endswith("lexer::skip_tag") and any((const_of(b, a) or {}).get("s") == name for a in t["args"])]
+        if len(r) != 1:
+            raise AnchorMissing("skip_tag(.., \"%s\", ..) call in the tokenizer" % name)
+        return r[0]
+    raw_bb, end_bb = tag_call("raw"), tag_call("endraw")
+
+    def is_flag(l, call_bb, classes):
+        return l.kind == "call" and l.detail[2] == call_bb and len(l.projs) >= 3 and l.projs[0] == "as:Some" and l.projs[1] == ".0" and \
+            l.projs[2].startswith(".") and l.projs[2][1:].isdigit() and fields.get(int(l.projs[2][1:])) in classes
+
+    def any_skip_leaf(l):
+        return l.kind == "call" and l.detail[0].endswith("lexer::skip_tag")
+    aggs = list(find_aggs(b, "parsing::lexer::Token", "RawContent"))
+    ok = len(aggs) == 1
+    why = "RawContent construction not found"
+    if ok:
+        ls = tr.operand(aggs[0][2]["rv"]["ops"][2])
+        ok = bool(ls) and all(is_flag(l, end_bb, ("after",)) for l in ls)
+        why = "got %s" % sorted(leaf_str(l) for l in ls)[:3]
+    rep.add("C08.RAW", "C08.RAW:token-trailing-flag-is-endraw-closing-dash", ok, b.where(aggs[0][0]) if aggs else b.where(0), "RawContent's trailing-trim flag is skip_tag(\"endraw\")'s "
+            "after-the-name dash (`endraw -%}`)" + ("" if ok else " — VIOLATED: " + why))
+    for fn, want in (("trim_start", "raw-closing"), ("trim_end", "endraw-opening")):
+        sites = [bb for bb, t in b.calls() if callee_def(t).endswith("<impl str>::" + fn) and b.dominates(end_bb, bb)]
+        ok = len(sites) == 1
+        why = "%d %s calls after the endraw match" % (len(sites), fn)
+        if ok:
+            g = gate_of(b, sites[0])
+            ok = g is not None and b.dominates(raw_bb, g)
+            why = "no gating test"
+            if ok:
+                ls = [l for l in tr.operand(b.term(g)["op"]) if l.kind != "const"]
+                if want == "raw-closing":
+                    ok = bool(ls) and all(is_flag(l, raw_bb, ("after",)) for l in ls)
+                else:
+                    ok = bool(ls) and not any(is_flag(l, end_bb, ("after", "other")) for l in ls) and not any(l.kind == "call" and l.detail[2] == raw_bb for l in ls)
+                why = "gated by %s" % sorted(leaf_str(l) for l in ls)[:3]
+        rep.add("C08.RAW", "C08.RAW:body-%s-gated-by-%s-dash" % (fn, want), ok, b.where(sites[0]) if sites else b.where(0), "the raw body's %s is decided by the dash %s" % (
+            fn, "after `raw` (skip_tag(\"raw\")'s after-the-name flag)" if want == "raw-closing" else "that opens the endraw tag (never the one after `endraw`, never the raw tag's)")
+            + ("" if ok else " — VIOLATED: " + why))
 
 
 def check_raw_token(crate, rep, cfg):
